@@ -11,6 +11,9 @@ import time
 import traceback
 
 
+MAX_TASKS_PER_WORKER = 120
+
+
 def _worker(modname, x64, task_q, result_q, wid):
     os.environ["MC_X64"] = "1" if x64 else "0"
     try:
@@ -21,10 +24,17 @@ def _worker(modname, x64, task_q, result_q, wid):
     except Exception:
         result_q.put(("fatal", wid, -1, traceback.format_exc()))
         return
+    n_done = 0
     while True:
+        if n_done >= MAX_TASKS_PER_WORKER:
+            # long-lived workers accumulate compiled executables (3 GB each after a few thousand expressions):
+            # retire and let the parent start a fresh one
+            result_q.put(("retire", wid, -1, None))
+            return
         item = task_q.get()
         if item is None:
             break
+        n_done += 1
         idx, case = item
         result_q.put(("start", wid, idx, None))
         t0 = time.time()
@@ -91,6 +101,11 @@ def run_pool(modname, cases, *, x64=True, workers=None, horizon_s=600.0, progres
             if results[idx] is None:
                 results[idx] = payload
                 done += 1
+        elif kind == "retire":
+            p_old = procs.pop(wid, None)
+            if p_old is not None:
+                p_old.join(timeout=5)
+            spawn()
         elif kind == "fatal":
             fatal = payload
             break
